@@ -106,7 +106,23 @@ def dedupe(out):
 
 def gen_matrix(rng, kind=None):
     """a 4x4 matrix spec: built from the public builders or arbitrary"""
-    kind = kind or rng.choice(["trans", "scale", "rot", "rotq", "trs", "any", "anyaffine", "lat", "proj"])
+    kind = kind or rng.choice(["trans", "scale", "rot", "rotq", "trs", "any", "anyaffine", "lat", "proj", "nearid"])
+    if kind == "nearid":
+        # almost, but not, the identity: entries within 1e-12..1e-5.5 of it (an `allclose` to the identity must not skip it)
+        d = lambda: rng.uniform(-1, 1) * 10.0 ** rng.uniform(-12, -5.5)
+        c = rng.random()
+        M = [[1.0 if i == j else 0.0 for j in range(4)] for i in range(4)]
+        if c < 0.35:
+            for i in range(3):
+                M[i][3] = d() * 1e-3
+        elif c < 0.7:
+            f = d()
+            for i in range(3):
+                M[i][i] = 1.0 + f * rng.choice([1.0, 1.0, 0.5])
+        else:
+            a, b, e = d() * 1e-3, d() * 1e-3, d() * 1e-3
+            M[0][1], M[1][0], M[0][2], M[2][0], M[1][2], M[2][1] = -e, e, b, -b, -a, a
+        return {"k": "any", "M": M}
     if kind == "trans":
         return {"k": "trans", "v": gens.lat(rng, 4, rng.choice([1, 2, 4]))}
     if kind == "scale":
